@@ -55,6 +55,12 @@ type TxGen struct {
 	MaxGasPrice     uint32
 	pendingMsig     *MultisigAcc
 	pendingEdit     *MultisigAcc
+	aim             *aimedTrade // a taker trade aimed at the order just placed (dust-remainder scenario)
+}
+
+type aimedTrade struct {
+	route  []types.CoinID
+	amount *big.Int
 }
 
 // Learn lets the generator learn from an accepted transaction (new multisig addresses etc.).
@@ -357,6 +363,20 @@ type draft struct {
 
 // Next generates one transaction. It never returns nil.
 func (g *TxGen) Next() ([]byte, TxMeta) {
+	if g.aim != nil {
+		a := g.aim
+		g.aim = nil
+		// somebody who can afford it sells exactly the aimed amount into the fresh order
+		for try := 0; try < 8; try++ {
+			k := g.user()
+			if g.bal(k.Addr, a.route[0]).Cmp(a.amount) > 0 {
+				snd := Senderish{K: k}
+				d := &draft{t: tx.TypeSellSwapPool, kind: "valid", note: "aimed-at-order", sender: &snd,
+					data: tx.SellSwapPoolDataV260{Coins: a.route, ValueToSell: a.amount, MinimumValueToBuy: big.NewInt(1)}}
+				return g.Envelope(d)
+			}
+		}
+	}
 	for {
 		t := g.pickType()
 		d := g.make(t)
@@ -926,6 +946,14 @@ func (g *TxGen) make(t tx.TxType) *draft {
 		vb.Div(vb, rs).Mul(vb, big.NewInt(f)).Div(vb, big.NewInt(100))
 		if vb.Sign() == 0 {
 			vb.SetInt64(1)
+		}
+		if kind == "valid" && f >= 100 && f <= 102 && R.Intn(2) == 0 && vb.Cmp(big.NewInt(1e12)) > 0 {
+			// next slot: a taker fills this order leaving a remainder around the 1e10 minimum (below, at, above)
+			dust := []int64{1, 5e9, 1e10 - 1, 1e10, 1e10 + 1, 3e10}[R.Intn(6)]
+			into := new(big.Int).Sub(vb, big.NewInt(dust))
+			amt := new(big.Int).Div(new(big.Int).Mul(into, big.NewInt(1001)), big.NewInt(1000))
+			amt = amt.Div(amt.Mul(amt, big.NewInt(1000)), big.NewInt(999))
+			g.aim = &aimedTrade{route: []types.CoinID{buy, sell}, amount: amt}
 		}
 		d.data = tx.AddLimitOrderData{CoinToSell: sell, ValueToSell: vs, CoinToBuy: buy, ValueToBuy: vb}
 	case tx.TypeRemoveLimitOrder:
